@@ -2,6 +2,7 @@ CONSTANTS
   STAR = "*"
   QM = "?"
   COLON = ":"
+  Fold <- MCFold
   Dev = {"NoSavedTextPos"}
   Apps <- MCApps
   Reqs <- MCReqs
@@ -11,7 +12,7 @@ CONSTANTS
   MaxRoutes = 1
   MaxDef = 1
   NHostVals = 2
-  NPaths = 9
+  NPaths = 11
   NQueries = 1
   Others = {0}
   GenLists <- GenListsQuick
